@@ -35,6 +35,7 @@ EXPLANATION = (
     "shown to realise the bracket [cum_k, cum_k+1) from searchsorted's specification (R-C01-5). Three- and four-point "
     "process agree on closed forms of every kernel argument, recorder call and state store (R-C01-6). Not decided: whether "
     "the kept tail is the right one, plateaus across chunk borders, i.e. equality of results for all signals and partitions.")
+EXPLANATION += (" R-C01-7: no detector attribute holds an alias or view of the caller's chunk (attribute provenance from the effect analysis), and values cached on recorders/detectors are reset by every method that changes what they are computed from (memo rule with a built-in positive example).")
 ASSUMPTIONS = [
     "np.searchsorted(a, v, side) follows its documented bracket on an ascending array",
     "the compiled rainflow_ext kernels are built from extension.pyx",
@@ -77,6 +78,44 @@ def run(ctx):
     ctx.attempt(_r4_lengths, prog, dets)
     ctx.attempt(_r5_bracket, prog)
     ctx.attempt(_r6_siblings, prog, dets)
+    ctx.attempt(_r7_state, prog, dets)
+
+
+def _r7_state(ctx, prog, dets):
+    """State carried from chunk to chunk belongs to the detector: (a) nothing stored in the detector is a view of the caller's
+    chunk (a reused read buffer would change the carried tail behind the detector's back) - effect analysis of what reaches
+    self.<attr> in _new_turns and process(); (b) values cached on the recorder/detector are reset by every method that
+    changes what they were computed from (shared memo rule)."""
+    from ..effects import Effects
+    from .. import memo
+    ctx.rule("R-C01-7", floor=4, what="carried state is not a view of the caller's chunk; cached values are invalidated by every mutator")
+    eff = Effects(prog)
+    base = prog.cls(GEN + ":AbstractDetector")
+    # the property names the three-point, four-point and FKM detectors (the FKM-nonlinear one stores pandas selections, which
+    # are copies under copy-on-write; it is covered by the memo part only)
+    classes = [base] + [c for c, _ in dets if c.name != "FKMNonlinearDetector"]
+    all_classes = [base] + [c for c, _ in dets]
+    seen = set()
+    for ci in classes:
+        prov = eff.attr_provenance(ci)
+        for attr, srcs in sorted(prov.items()):
+            if (ci.key, attr) in seen:
+                continue
+            seen.add((ci.key, attr))
+            if attr in ("_recorder",):
+                continue
+            bad = [(o, m) for o, m in srcs if o[0] in ("param", "elem") and o[1] in ("samples", "chunk", "data")]
+            if bad:
+                f = next((fs[-1] for name, fs in ci.methods.items()
+                          if any(isinstance(st, ast.Assign) and any(is_self_attr(t, attr) for t in st.targets)
+                                 for st in walk_function(fs[-1].node))), None)
+                ctx.violated(f or ci.key, f.node if f else None, "%s keeps a %s of the caller's chunk in self.%s: when the caller re-uses "
+                             "its buffer for the next chunk the carried state changes, and chunked processing differs from "
+                             "one-piece processing" % (ci.name, bad[0][1], attr), text="%s.%s aliases chunk" % (ci.name, attr))
+            else:
+                ctx.holds(ci.key, None, "%s.%s holds no view of the caller's chunk" % (ci.name, attr))
+    recs = [prog.cls(GEN + ":AbstractRecorder")] + list(prog.subclasses(GEN + ":AbstractRecorder"))
+    memo.run_rule(ctx, classes=recs + all_classes)
 
 
 # ----------------------------------------------------------------------------- R-C01-1
@@ -618,6 +657,31 @@ FN = "src/pylife/stress/rainflow/fkm_nonlinear.py"
 
 def variants():
     out = []
+
+    def tail_view_of_chunk(tree):
+        f = find_func(tree, "AbstractDetector._new_turns")
+        for i, st in enumerate(f.body):
+            if isinstance(st, ast.Assign) and isinstance(st.value, ast.Call) and call_name(st.value) == "np.concatenate" and \
+                    isinstance(st.targets[0], ast.Name):
+                t = st.targets[0].id
+                f.body[i] = parse_stmt("if len(self._sample_tail) > 0:\n    %s\nelse:\n    %s = np.asarray(samples, dtype=np.float64)"
+                                       % (ast.unparse(st), t))
+                return True
+        return False
+    out.append(witness("first chunk not copied: the carried tail is a view of the caller's array", GP, tail_view_of_chunk, "R-C01-7"))
+
+    def stale_chunk_limits(tree):
+        f = find_func(tree, "AbstractRecorder.chunk_local_index")
+        for i, st in enumerate(f.body):
+            if isinstance(st, ast.Assign) and "cumsum" in ast.unparse(st.value) and isinstance(st.targets[0], ast.Name):
+                t = st.targets[0].id
+                f.body[i:i + 1] = [parse_stmt("if self._limits is None:\n    self._limits = %s" % ast.unparse(st.value)),
+                                   parse_stmt("%s = self._limits" % t)]
+                g = find_func(tree, "AbstractRecorder.__init__")
+                g.body.append(parse_stmt("self._limits = None"))
+                return True
+        return False
+    out.append(witness("chunk limits cached and never invalidated", GP, stale_chunk_limits, "R-C01-7"))
 
     def tail_last_two(tree):
         f = find_func(tree, "AbstractDetector._new_turns")
